@@ -1,6 +1,7 @@
 package yqlib
 
 import (
+	"math"
 	"container/list"
 	"fmt"
 	"sort"
@@ -157,17 +158,27 @@ func (a sortableNodeArray) compare(lhs *CandidateNode, rhs *CandidateNode, dateT
 
 		return 1
 	} else if lhsTag == "!!int" && rhsTag == "!!int" {
-		_, lhsNum, err := parseInt64(lhs.Value)
-		if err != nil {
-			panic(err)
+		_, lhsNum, lhsErr := parseInt64(lhs.Value)
+		_, rhsNum, rhsErr := parseInt64(rhs.Value)
+		if lhsErr == nil && rhsErr == nil {
+			if lhsNum < rhsNum {
+				return -1
+			} else if lhsNum > rhsNum {
+				return 1
+			}
+			return 0
 		}
-		_, rhsNum, err := parseInt64(rhs.Value)
-		if err != nil {
-			panic(err)
+		// an integer this code cannot read (-0x10, 0b101, beyond 64 bits, a mistagged scalar): compare as
+		// floating point numbers if possible, as text otherwise - sorting must not crash
+		lhsFloat, lhsErr := parseNumberForSort(lhsTag, lhs.Value)
+		rhsFloat, rhsErr := parseNumberForSort(rhsTag, rhs.Value)
+		if lhsErr != nil || rhsErr != nil {
+			log.Warningf("Could not parse numbers %v, %v for sort, sorting by string instead", lhs.Value, rhs.Value)
+			return strings.Compare(lhs.Value, rhs.Value)
 		}
-		if lhsNum < rhsNum {
+		if lhsFloat < rhsFloat {
 			return -1
-		} else if lhsNum > rhsNum {
+		} else if lhsFloat > rhsFloat {
 			return 1
 		}
 		return 0
@@ -201,6 +212,12 @@ func parseNumberForSort(tag string, value string) (float64, error) {
 		if err == nil {
 			return float64(num), nil
 		}
+	}
+	switch strings.ToLower(value) {
+	case ".inf", "+.inf":
+		return math.Inf(1), nil
+	case "-.inf":
+		return math.Inf(-1), nil
 	}
 	return strconv.ParseFloat(value, 64)
 }
